@@ -125,3 +125,10 @@ add("C07",
     "the reference in which each function gets the values stored under its own name (as C01).",
     "real-number model of floats; CrossHair timeout 200 s with refuted twin; templates as listed",
     "DESIGN.md section 7 C07", technique="CrossHair (z3) on the template builder; symbolic execution of the real JAX pipeline + z3 for routing", engine="symjax+crosshair")
+add("C09",
+    "Per PYTHONHASHSEED (fresh interpreter each): one generated solve and one generated simulate function object are executed "
+    "symbolically in the history f(p1); f(p2); real XLA call on concrete params of three leaf types; f(p1); z3 decides third == "
+    "first, second == reference(p2), rebuilt function == first build; concrete results equal the symbolic terms; model.functions and "
+    "all argument containers/leaves are unchanged (identity); results are compared across the enumerated hash seeds.",
+    "hash seeds/processes and call histories other than the enumerated ones are outside; real-number model of floats",
+    "DESIGN.md section 7 C09")
